@@ -347,6 +347,9 @@ func runCase(c Case, st *ev.Stats) error {
 	switch c.Bind {
 	case "BindAny":
 		sa, ta := setOf(src.ActiveStates(nil)), setOf(tgt.ActiveStates(nil))
+		if c.BusyTarget {
+			delete(ta, "Other") // the harness's own holding state on the target
+		}
 		if !eqSet(sa, ta) {
 			err := fmt.Errorf("BindAny: at quiescence the target's active set %v differs from the source's %v", keys(ta), keys(sa))
 			if kf.IsKnown("C18-bindany-removals") {
